@@ -5,14 +5,17 @@ MC_ColVals == [g |-> {NULL, 0, 1}, o |-> {0, 1, 2}, x |-> {NULL, 0, 1, 2}, y |->
 MC_Kind == [g |-> "s", h |-> "s", h2 |-> "s", src |-> "s",
             p |-> "b", q |-> "b", o |-> "n", k |-> "n", x |-> "n", y |-> "n", z |-> "n", w |-> "n", x2 |-> "n", nosuch |-> "n"]
 MC1_TabCols == [t1 |-> <<"g", "o", "x">>]
+MCJ_TabCols == [t1 |-> <<"g", "x">>, t2 |-> <<"g", "x", "y">>]
+MCJ_ColVals == [g |-> {NULL, 0, 1}, x |-> {NULL, 1}, y |-> {NULL, 1}]
 SIM_TabCols == [t1 |-> <<"g", "o", "x", "y">>, t2 |-> <<"g", "k", "y">>]
 SIM_ColVals == [g |-> {NULL, 0, 1}, o |-> {0, 1, 2, 3}, x |-> {NULL, 0, 1, 2}, y |-> {NULL, 0 - 1, 1, 3},
                 k |-> {NULL, 0, 1, 2}]
 NoBackends == {}
 NoDevOf == [b \in {} |-> {}]
-AllBackends == {"pandas", "sqlite", "polars"}
+AllBackends == {"pandas", "sqlite", "polars", "pg"}
 AllDevOf == [b \in AllBackends |->
                CASE b = "pandas" -> {"pandas_drops_null_groups", "pandas_cum_null_hole", "null_cmp_false", "pandas_null_keys_match"}
                  [] b = "sqlite" -> {"sql_maxmin_swapped", "sqlite_full_join_emulation"}
+                 [] b = "pg" -> {"sql_maxmin_swapped"}
                  [] b = "polars" -> {"polars_full_join_right_key_lost", "polars_maxmin_ignore_null"}]
 =============================================================================
